@@ -844,7 +844,7 @@ static Boolean DecodeMOVE_2(int Start) {
     if (!as_strcasecmp(Left2Comp.str.p_str, "X0")) {
         if (!DecodeALUReg(Right2Comp.str.p_str, &RegErg, False, False, True)) {
             WrError(ErrNum_InvAddrMode);
-        } else if (strcmp(Left1Comp.str.p_str, Right2Comp.str.p_str)) {
+        } else if (as_strcasecmp(Left1Comp.str.p_str, Right2Comp.str.p_str)) {
             WrError(ErrNum_InvAddrMode);
         } else {
             DecodeAdr(&Right1Comp, MModNoImm, MSegXData, &AdrResult1);
@@ -863,7 +863,7 @@ static Boolean DecodeMOVE_2(int Start) {
     if (!as_strcasecmp(Left1Comp.str.p_str, "Y0")) {
         if (!DecodeALUReg(Right1Comp.str.p_str, &RegErg, False, False, True)) {
             WrError(ErrNum_InvAddrMode);
-        } else if (strcmp(Left2Comp.str.p_str, Right1Comp.str.p_str)) {
+        } else if (as_strcasecmp(Left2Comp.str.p_str, Right1Comp.str.p_str)) {
             WrError(ErrNum_InvAddrMode);
         } else {
             DecodeAdr(&Right2Comp, MModNoImm, MSegYData, &AdrResult2);
